@@ -110,7 +110,8 @@ func runHistory(s *site, rs reqSpec, ops []int, keys *[]string) (string, string)
 		return "history/route-not-found", "RouteInfo did not match " + rs.Target
 	}
 	m.route, r = route, r2
-	hasAuth := route.HasAuth()
+	// whether the operation is secured is read off the description (theSpec), not asked of the code under test
+	hasAuth := !(strings.HasPrefix(rs.Target, "/api/open") || strings.HasPrefix(rs.Target, "/api/plain") || strings.HasPrefix(rs.Target, "/api/param") || strings.HasPrefix(rs.Target, "/api/wild"))
 	for step, op := range ops {
 		at := fmt.Sprintf("op %d (%s) of %v", step+1, opNames[op], names(ops))
 		authBefore, consBefore := s.w.authN.Load(), s.w.consumeN.Load()
